@@ -349,6 +349,95 @@ impl Model for SetMachine {
     }
 }
 
+/// C09 beyond the machine's bounds: (i) every window of 2 and 3 numerically consecutive ids of a
+/// resolution (covers every quintant and face boundary), (ii) deep inputs with targets up to 29,
+fn extra_c09(tier: &str) -> (u64, Vec<Viol>) {
+    let mut lists: Vec<(Vec<u64>, i32)> = Vec::new();
+    let rmax = if tier == "quick" { 3 } else { 5 };
+    for r in 0..=rmax {
+        let mut all = rc::all_cells(r);
+        all.sort_unstable();
+        for w in [2usize, 3] {
+            for win in all.windows(w) {
+                lists.push((win.to_vec(), r + 1));
+                if r + 2 <= rmax + 1 {
+                    lists.push((win.to_vec(), r + 2));
+                }
+                let mut rev = win.to_vec();
+                rev.reverse();
+                lists.push((rev, r + 1));
+            }
+        }
+    }
+    let chains = crate::enumerate::fam_chains(2, 29);
+    let step = if tier == "quick" { 97 } else { 7 };
+    for ch in chains.iter().step_by(step) {
+        for (i, &c) in ch.iter().enumerate() {
+            let r = rc::resolution(c).unwrap();
+            if r < 18 {
+                continue;
+            }
+            for t in [r, r + 1, r + 3, 27, 28, 29] {
+                if t >= r && t <= 29 && rc::fanout(r, t) <= 65536 {
+                    lists.push((vec![c], t));
+                    if i + 2 < ch.len() {
+                        // two inputs of different resolution, deeper one first
+                        let d = ch[i + 2];
+                        if rc::resolution(d).unwrap() <= t {
+                            lists.push((vec![d, c], t));
+                        }
+                    }
+                }
+            }
+        }
+    }
+    // (lists mixing a finer-than-target cell with very coarse cells are probed by C14 in child processes)
+    let n = lists.len() as u64;
+    let v: Vec<Viol> = lists
+        .par_iter()
+        .flat_map(|(l, t)| {
+            let finer = l.iter().any(|&c| rc::resolution(c).unwrap() > *t);
+            let case = json!({"kind": "uncompact", "cells": hexes(l), "target": t});
+            let r = subj::uncompact(l, *t);
+            let mut out = Vec::new();
+            if finer {
+                match r {
+                    Err(e) if e.starts_with("PANIC") => out.push(viol("C09/panic", format!("an input is finer than the target: expected Err, got {}", e), case)),
+                    Ok(v) => out.push(viol("C09/error-iff-finer", format!("an input is finer than target {} but uncompact returned {} cells", t, v.len()), case)),
+                    _ => {}
+                }
+                return out;
+            }
+            if cover_size(l, *t) > 65536 {
+                return out;
+            }
+            match r {
+                Ok(v) => {
+                    let mut off = 0usize;
+                    let total = cover_size(l, *t) as usize;
+                    if v.len() != total {
+                        out.push(viol("C09/length", format!("uncompact to {} returned {} cells, the hierarchy fan-outs sum to {}", t, v.len(), total), case));
+                        return out;
+                    }
+                    for &x in l {
+                        let k = rc::fanout(rc::resolution(x).unwrap(), *t) as usize;
+                        let got: HashSet<u64> = v[off..off + k].iter().copied().collect();
+                        let want: HashSet<u64> = rc::descendants(x, *t).into_iter().collect();
+                        off += k;
+                        if got != want {
+                            out.push(viol("C09/block-descendants", format!("outputs for input {} at target {} are not exactly its descendants (in input order)", subj::hex(x), t), case));
+                            break;
+                        }
+                    }
+                }
+                Err(e) => out.push(viol("C09/error-iff-finer", format!("no input is finer than target {} but uncompact failed: {}", t, e), case)),
+            }
+            out
+        })
+        .collect();
+    (n, v)
+}
+
 // ------------------------------------------------------------------------ universes
 
 fn universes(tier: &str) -> Vec<(String, Vec<u64>)> {
@@ -371,6 +460,44 @@ fn universes(tier: &str) -> Vec<(String, Vec<u64>)> {
         u.push(lone7[100]);
         u.push(lone7[4000]);
         out.push(("resolution gaps: 5 quintants (face 1) + 4 r=3 siblings (face 2) + 4 r=5 siblings (face 3) + 2 lone r=7 cells".to_string(), u));
+    }
+    // deep universe: sibling groups at the finest resolutions (r=28 children and r=29 grandchildren of
+    // one r=27 cell, plus the cell itself for overlap)
+    {
+        let p27 = crate::enumerate::fam_chains(2, 27)[77].last().copied().unwrap();
+        let ch = rc::children(p27);
+        let mut u = vec![p27];
+        u.extend(ch.iter().copied());
+        let ngrand = if tier == "quick" { 2 } else { 4 };
+        for c in ch.iter().take(ngrand) {
+            u.extend(rc::children(*c));
+        }
+        out.push((format!("deep: one r=27 cell + its 4 children (r=28) + {} grandchildren (r=29)", 4 * ngrand), u));
+    }
+    // cousin universe: cells that sit at the same relative position under the four children B_i of
+    // one cell A, at several depths below B_i (numeric spacing = the sibling stride of a COARSER
+    // level), so that levels between them and A stay empty (resolution gaps)
+    {
+        let a = rc::descendants(quints(4)[1], 3)[5];
+        let b = rc::children(a);
+        let mut u: Vec<u64> = Vec::new();
+        let under = |c: u64, path: &[usize]| -> u64 {
+            let mut x = c;
+            for &d in path {
+                x = rc::children(x)[d];
+            }
+            x
+        };
+        for bi in &b {
+            u.push(under(*bi, &[0, 0]));
+            u.push(under(*bi, &[1, 2]));
+            u.push(under(*bi, &[3]));
+            u.push(under(*bi, &[0, 0, 0, 0]));
+        }
+        if tier != "quick" {
+            u.extend(quints(8));
+        }
+        out.push(("cousins: under each of the 4 children of one r=3 cell the descendants at paths 00, 12, 3 and 0000 (r=6,6,5,8) (+ 5 quintants of another face)".to_string(), u));
     }
     if tier == "quick" {
         // 12 base cells + the 5 quintants of face 1 (quintant codes 5..9 interleave with base cells 5..9)
@@ -451,7 +578,7 @@ pub fn run(prop: u8, tier: &str) -> Report {
                 8 => oracle_c08(&s, false),
                 9 => {
                     if s.len() <= 8 {
-                        oracle_c09(&s, 3)
+                        oracle_c09(&s, (u.iter().map(|&c| rc::resolution(c).unwrap()).max().unwrap_or(0) + 1).min(29))
                     } else {
                         vec![]
                     }
@@ -469,8 +596,15 @@ pub fn run(prop: u8, tier: &str) -> Report {
         nonoverlap += cnt.load(Ordering::Relaxed);
         rep.sample(json!({"universe": name, "size": n, "subsets": 1u64 << n}));
     }
+    let mut extra_lists = 0u64;
+    if prop == 9 {
+        let (n, v) = extra_c09(tier);
+        extra_lists = n;
+        g.sink.extend(v);
+    }
     let (viols, _) = g.sink.drain();
     rep.sink.extend(viols);
+    rep.set("extra_lists_evaluated", json!(extra_lists));
     rep.set("states", json!(states));
     rep.set("transitions", json!(generated.saturating_sub(m.inits.len() as u64)));
     rep.set("traces_validated_against_impl", json!(states));
